@@ -26,6 +26,7 @@ ASSUMPTIONS = ["BLOB payloads are compared by C08; Element.enabled toggles at ru
 REQUIRED_EVENTS = ["sessions", "checkpoints", "library_client_properties_compared", "reference_mirror_messages",
                    "snooping_client_checkpoints", "ops_with_bytes_in_flight", "depth3_sessions"]
 
+QUICK_SHARDS = 4
 MODES = ["whole", "1024", "1", "random", "small"]
 
 
@@ -233,7 +234,7 @@ def one_case(ctx, case):
 
 
 def run(ctx):
-    n = 260 if not ctx.thorough else 30000
+    n = 800 if not ctx.thorough else 30000
     for i in range(n):
         if not ctx.mine(i):
             continue
